@@ -293,6 +293,14 @@ def handwritten_loads():
     add("loop-body", smf([on + [0x10] + marker("loopStart") + off + [0x10] + marker("loopEnd") + off + EOT]))
     add("loopstack-nested", smf([[0] + marker("loopstart=2") + on + [1] + marker("loopstart=0") + off + [1] + marker("loopend=1") + [1] + marker("loopend=1") + EOT]))
     add("loopstack-end-only", smf([[0] + marker("loopend=1") + on + off + EOT]))
+    # several stack-loop begins in one row, several ends in a later row (the play-time stack must grow by as many
+    # levels as the row opens), with finite and infinite counts
+    for b in (1, 2, 3):
+        for e in (1, 2, 3):
+            for n in (1, 0, 2):
+                add("loopstack-b%d-e%d-n%d" % (b, e, n),
+                    smf([on + sum([[0] + marker("loopstart=%d" % n) for _ in range(b)], []) + off +
+                         sum([[0] + marker("loopend=0") for _ in range(e)], []) + on + off + EOT]))
     add("tempo-0", smf([[0, 0xFF, 0x51, 3, 0, 0, 0] + on + off + EOT]))
     add("tempo-max-delta-max", smf([[0, 0xFF, 0x51, 3, 0xFF, 0xFF, 0xFF, 0xFF, 0xFF, 0xFF, 0x7F, 0x90, 60, 100] + off + EOT]))
     add("tempo-8-bytes", smf([[0, 0xFF, 0x51, 8, 255, 255, 255, 255, 255, 255, 255, 255] + on + off + EOT]))
